@@ -257,7 +257,7 @@ def observe(tool, root, shape):
                 else:
                     return {'inconclusive': 'cannot attribute emitted token %r/%r to a source operand in %r' % (x, y, ' '.join(runs[0][0]))}
             lines.append({'target': which, 'tokens': tmpl, 'example': l0})
-    return {'lines': lines, 'name': nm if has_name else None, 'slots': runs[0][1], 'source': ' '.join(runs[0][0]),
+    return {'lines': lines, 'name': nm if has_name else None, 'slots': runs[0][1], 'source': ' '.join(runs[0][0]), 'toks': runs[0][0],
             'mapper_pos': p0}
 
 
@@ -466,6 +466,7 @@ def check_emission(prop, z3, asm, itp, dat, prn, a_shapes, d_int, d_dat, d_prn, 
             res['inconclusive'].append('E2 %s: %s' % (root, ob['inconclusive']))
             continue
         slots = ob['slots']
+        probe_emission(prop, asm, tool, root, shape, ob, res, known)
         svars = [z3.Int('s%d' % i) for i in range(len(slots))]
         dom = []
         for i, s in enumerate(slots):
@@ -521,6 +522,77 @@ def check_emission(prop, z3, asm, itp, dat, prn, a_shapes, d_int, d_dat, d_prn, 
                 else:
                     res['inconclusive'].append('E2 %s: solver returned unknown' % label)
     res['notes'].append({'assembler_shapes_rejected_by_real_assembler': rejected})
+
+
+def probe_values(asm, slots, k):
+    """typed values for the numeric operands of a shape, probe set k (0: negative / maximal,
+    1: minimal / sign-bit boundary, 2: maximal / zero)"""
+    vals = {}
+    for i, s in enumerate(slots):
+        if s['kind'] != 'num' or s['nt'] == 'offset':
+            continue
+        ty = asm.ret[s['nt']]
+        lo, hi, bits = NUM_TYPES[ty]
+        if s['nt'] == 'raw_addr':
+            hi = MB - 1
+        if lo < 0:
+            vals[i] = [-3 - i, lo, hi][k]
+        else:
+            vals[i] = [hi - i, 1 << (bits - 1) if bits <= 16 else 0x80000 + i, 0][k]
+            vals[i] = min(max(vals[i], lo), hi)
+    return vals
+
+
+def probe_emission(prop, asm, tool, root, shape, ob, res, known):
+    """concrete complement of the SMT queries: the template of a shape is generalised from two
+    instantiations with small positive constants; here the real assembler is run again with negative /
+    boundary constants, and every emitted line is executed by the real interpreter (or data loader) next
+    to the CANONICAL line (same template, constants written as plain signed decimals).  The two must be
+    accepted and leave the same machine: otherwise the textual form the assembler chose for a constant is
+    rejected (C10) or means something else downstream (C11)."""
+    is_data = root in ('set_directive', 'db_directive', 'dw_directive')
+    slots = ob['slots']
+    if not any(s['kind'] == 'num' and s['nt'] != 'offset' for s in slots):
+        return
+    for k in range(3):
+        vals = probe_values(asm, slots, k)
+        toks = list(ob['toks'])
+        for i, v in vals.items():
+            toks[slots[i]['pos']] = str(v)
+        src = ' '.join(toks)
+        r = tool.ask('AD' if is_data else 'A', src)
+        if r[0] != 'OK':
+            continue      # this combination of boundary values is refused by the assembler: nothing emitted
+        emitted = [c for c in (r[2] if is_data else r[1]).split('\x1f') if c] if len(r) > 2 else []
+        lines = [l for l in ob['lines'] if l['target'] == ('data' if is_data else 'code')]
+        if len(emitted) != len(lines):
+            continue
+        for em, tl in zip(emitted, lines):
+            canon = []
+            for tk in tl['tokens']:
+                if tk[0] == 'lit':
+                    canon.append(tk[1])
+                else:
+                    s_ = slots[tk[1]]
+                    if s_['kind'] == 'num':
+                        canon.append(str(vals.get(tk[1], s_.get('value', 0))))
+                    else:
+                        canon.append(slot_render(s_))
+            canon_line = ' '.join(canon)
+            cmd = 'XD' if is_data else 'X'
+            r1 = tool.ask(cmd, em)
+            r2 = tool.ask(cmd, canon_line)
+            res['probes'] = res.get('probes', 0) + 1
+            if r2[0] != 'OK':
+                continue      # the canonical rendering itself is not executable (e.g. out of the downstream range): no verdict
+            label = '%s.probe.%s: %s' % (prop, root, src)
+            if r1[0] != 'OK':
+                if prop == 'C10' and known_match(known, src, 'emission') is None:
+                    res['violations'].append({'obligation': label, 'source_line': src, 'emitted': em, 'downstream': r1[:2]})
+                continue
+            if prop == 'C11' and r1[1] != r2[1]:
+                res['violations'].append({'obligation': label, 'source_line': src, 'emitted': em, 'canonical': canon_line,
+                                          'state_after_emitted': r1[1], 'state_after_canonical': r2[1]})
 
 
 def role_value_conditions(z3, asm, dmodel, slots, svars, shape, line, dshape, roles):
